@@ -57,7 +57,7 @@ func protoCallback(callback *callback.Callback) *pb.Callback {
 }
 
 func protoRecv(recv *pb.Recv) ([]byte, error) {
-	switch r := recv.Recv.(type) {
+	switch r := recv.GetRecv().(type) { // nil safe: recv is absent when the client does not set it
 	case *pb.Recv_Logical:
 		return json.Marshal(&r.Logical)
 	case *pb.Recv_Physical:
